@@ -1146,6 +1146,27 @@ func ruleR25(c *Ctx) {
 				lits[u.lit] = true
 			}
 			if !anyWrite {
+				// atomically modified only: still per-activation state
+				atomicMod := false
+				for l := range lits {
+					ast.Inspect(l.Body, func(z ast.Node) bool {
+						if id, isId := z.(*ast.Ident); isId && in.Uses[id] == types.Object(v) && isAtomicOperand(p, in, id) {
+							atomicMod = true
+						}
+						return true
+					})
+				}
+				if !atomicMod {
+					continue
+				}
+				n++
+				scoped := true
+				for l := range lits {
+					if lp := innermostLoop(p, l.Lit); lp != nil && !(v.Pos() >= lp.Pos() && v.Pos() < lp.End()) {
+						scoped = false
+					}
+				}
+				c.Check(scoped, f, f.Body, "captured atomic local "+v.Name(), "a local that action closures modify atomically is declared inside the loop iteration that creates the closures (per-activation state must not leak into the next activation)", fmt.Sprintf("declared inside the creating iteration: %v", scoped))
 				continue
 			}
 			n++
@@ -1155,6 +1176,28 @@ func ruleR25(c *Ctx) {
 				for l := range lits {
 					if launchedOnceAsGo(p, l) && !parentUsesAfter(p, f, l, v) {
 						ok = true
+					}
+				}
+			}
+			// per-activation state: a local written by a closure created inside a loop must be declared
+			// inside that loop iteration, otherwise the state of one activation leaks into the next
+			for l := range lits {
+				if lp := innermostLoop(p, l.Lit); lp != nil && !(v.Pos() >= lp.Pos() && v.Pos() < lp.End()) {
+					wr := false
+					for _, u := range us {
+						if u.lit == l && u.write {
+							wr = true
+						}
+					}
+					// atomic read-modify-write through &v counts as a write
+					ast.Inspect(l.Body, func(z ast.Node) bool {
+						if id, isId := z.(*ast.Ident); isId && in.Uses[id] == types.Object(v) && isAtomicOperand(p, in, id) {
+							wr = true
+						}
+						return true
+					})
+					if wr {
+						c.Bad(f, l.Lit, "captured local "+v.Name()+" outlives the activation", "a local that an action closure writes (plainly or atomically) is declared inside the loop iteration that creates the closure: state declared outside the loop is shared by all activations (a winner flag set once stays set)", v.Name()+" is declared outside the loop at "+p.Pos(lp.Pos())+" but written by a closure created in each iteration")
 					}
 				}
 			}
